@@ -95,6 +95,37 @@ stream!(FaultedPrograms, "faulted-programs", 40_000, 400_000, 1800, mutgen::faul
 stream!(TokenSoup, "token-soup", 80_000, 800_000, 200, mutgen::token_soup);
 stream!(ModuleSets, "module-sets", 12_000, 120_000, 4000, mutgen::module_set);
 
+fn structured_body(c: &mut Choices) -> Case
+{
+	// statement trees of the scope / placement checks: what the front end lets
+	// through must also survive IR generation and LLVM's verifier
+	let src = match c.draw(3)
+	{
+		0 => crate::c04::random_source(c),
+		1 => crate::c05::random_source(c),
+		_ => crate::c06::random_source(c),
+	};
+	Case {
+		files: vec![("main.pn".into(), src)],
+		kind: "structured-body",
+		planted_at: None,
+	}
+}
+
+fn declaration_graph(c: &mut Choices) -> Case
+{
+	let plant = c.chance(2, 3);
+	let g = crate::c11::dependency_graph(c, plant);
+	Case {
+		files: vec![("main.pn".into(), g.src)],
+		kind: "declaration-graph",
+		planted_at: None,
+	}
+}
+
+stream!(StructuredBodies, "structured-bodies", 60_000, 600_000, 200, structured_body);
+stream!(DeclarationGraphs, "declaration-graphs", 20_000, 200_000, 120, declaration_graph);
+
 struct Exhaustive;
 impl Exhaustive
 {
@@ -224,7 +255,7 @@ impl Check for C02
 	}
 	fn rule(&self) -> String
 	{
-		"valid UTF-8 sources <= 64 KiB, nesting <= 256: (a) repository corpus files (357) pristine, byte-mutated or with 1-3 token edits (delete, duplicate, swap, replace by / insert a random Penne token, stray bracket); (b) generated well-typed programs in plain or random layout with 1-3 token edits; (c) token soup over 67 Penne tokens, bare, inside a function body or in expression position; (d) EVERY token sequence of length <= 3 (quick) / <= 4 (thorough) over a 24-token alphabet in three templates (top level, function body, initialiser expression) — exhaustive; (e) sets of 2-3 modules drawn from the other streams with imports of each other, of themselves and of a missing file, compiled through one Compiler in the order of src/main.rs. Oracle: the whole pipeline lex..generate_ir..link in an isolated worker ends in success with IR or in failure with >= 1 diagnostic; a panic, LLVM abort, stack overflow, segfault (by site), an Err(anyhow) from the generator, or an empty error list is a failure. Non-trivial: the input got past lexing and parsing (failure, if any, is semantic), or it is a module set; distinct by source.".into()
+		"valid UTF-8 sources <= 64 KiB, nesting <= 256: (a) repository corpus files (357) pristine, byte-mutated or with 1-3 token edits (delete, duplicate, swap, replace by / insert a random Penne token, stray bracket); (b) generated well-typed programs in plain or random layout with 1-3 token edits; (c) token soup over 67 Penne tokens, bare, inside a function body or in expression position; (d) EVERY token sequence of length <= 3 (quick) / <= 4 (thorough) over a 24-token alphabet in three templates (top level, function body, initialiser expression) — exhaustive; (f) random statement trees of the goto / scope / loop-placement checks (C04-C06 generators: labels, gotos, declarations, uses, blocks, naked and braced branches, loops) and (g) random dependency graphs of constants and structures with and without cycles (C11 generator), all compiled down to IR; (e) sets of 2-3 modules drawn from the other streams with imports of each other, of themselves and of a missing file, compiled through one Compiler in the order of src/main.rs. Oracle: the whole pipeline lex..generate_ir..link in an isolated worker ends in success with IR or in failure with >= 1 diagnostic; a panic, LLVM abort, stack overflow, segfault (by site), an Err(anyhow) from the generator, or an empty error list is a failure. Non-trivial: the input got past lexing and parsing (failure, if any, is semantic), or it is a module set; distinct by source.".into()
 	}
 	fn assumptions(&self) -> Vec<String>
 	{
@@ -241,6 +272,8 @@ impl Check for C02
 			Box::new(TokenSoup),
 			Box::new(Exhaustive),
 			Box::new(ModuleSets),
+			Box::new(StructuredBodies),
+			Box::new(DeclarationGraphs),
 			Box::new(Probes),
 		]
 	}
